@@ -19,6 +19,10 @@ def policyOf : String → Option Cfg
   | "proj" => some { hash := .checked, rtti := .projected }
   | "deferred" => some { hash := .checked, rtti := .deferred }
   | "backward" => some { hash := .fast, err := .backward }
+  | "fastA" => some { hash := .fast }
+  | "fastB" => some { hash := .fast }
+  | "fastC" => some { hash := .fast }
+  | "checkedB" => some { hash := .checked }
   | _ => none
 
 def shapeOf (s : String) : Option (List Kind) :=
@@ -35,6 +39,9 @@ structure DState where
   handlerReturns : Bool := false
   dead : Bool := false
   slist : SList := {}
+  vars : List (String × VPtr) := []
+  /-- oracle mode: the pointee class of each `virtual_ptr` variable -/
+  ovars : List (String × Nat) := []
   oracle : Bool := false
   /-- oracle mode: the registry as of the latest completed update, per policy -/
   snaps : List (String × Registry) := []
@@ -157,9 +164,27 @@ def oracleNext (cfg : Cfg) (reg : Registry) (m : MethodRec) (ids : List Nat) : S
       | none => r
     else "ran [] " ++ r
 
-def stepOracle (d : DState) (s : PState) (cmd : String) (nats : List Nat) : DState × List String :=
+def stepOracle (d : DState) (s : PState) (cmd : String) (args : List String) : DState × List String :=
   let name := d.cur.getD ""
-  if cmd == "update" then
+  let nats : List Nat := args.filterMap (fun t =>
+    if t.startsWith "$" then (d.ovars.find? (fun e => e.1 == (t.drop 1).toString)).map (·.2) else t.toNat?)
+  if cmd == "vnew" || cmd == "vfinal" then
+    match args, d.snaps.find? (fun e => e.1 == name) with
+    | nm :: idt :: _, some (_, reg) =>
+      let id := idt.toNat?.getD 0
+      if s.cfg.checks && !(reg.classes.any (fun r => r.id == id)) then
+        (d, [if cmd == "vfinal" then s!"raised method_table {id}" else s!"raised unknown_class {id}"])
+      else if cmd == "vfinal" && s.cfg.checks && id != s.staticId then (d, [s!"raised method_table {id}"])
+      else ({ d with ovars := (d.ovars.filter (fun e => e.1 != nm)) ++ [(nm, id)] }, ["vptr ok"])
+    | _, _ => (d, ["illegal"])
+  else if cmd == "vcopy" || cmd == "vmove" then
+    match args with
+    | dst :: src :: _ =>
+      match d.ovars.find? (fun e => e.1 == src) with
+      | some e => ({ d with ovars := (d.ovars.filter (fun x => x.1 != dst)) ++ [(dst, e.2)] }, ["vptr ok"])
+      | none => (d, ["illegal"])
+    | _ => (d, ["illegal"])
+  else if cmd == "update" then
     match compile s.cfg.proj s.registry with
     | .error (.unknownClass id) => ({ d with snaps := d.snaps.filter (fun e => e.1 != name) }, [s!"update raised unknown_class {id}"])
     | _ => ({ d with snaps := (d.snaps.filter (fun e => e.1 != name)) ++ [(name, s.registry)] }, ["update ok"])
@@ -171,7 +196,7 @@ def stepOracle (d : DState) (s : PState) (cmd : String) (nats : List Nat) : DSta
       | none => (d, ["call bad-method"])
       | some m =>
         if cmd == "callnext" then (d, [oracleNext s.cfg reg m ids]) else (d, [oracleCall s.cfg reg m ids])
-    | _, _ => (d, ["call bad-state"])
+    | _, _ => (d, ["skipped: no completed update"])
 
 def step (d : DState) (tok : List String) : DState × List String :=
   match tok with
@@ -198,11 +223,30 @@ def step (d : DState) (tok : List String) : DState × List String :=
     | none => (d, ["!harness no policy selected"])
     | some s =>
       let nats := args.filterMap String.toNat?
-      if d.oracle && (cmd == "update" || cmd == "dump" || cmd == "call" || cmd == "callnext" || cmd == "callfinal") then
-        stepOracle d s cmd nats
+      if d.oracle && (cmd == "update" || cmd == "dump" || cmd == "call" || cmd == "callnext" || cmd == "callfinal" ||
+          cmd == "vcall" || cmd == "vnew" || cmd == "vfinal" || cmd == "vcopy" || cmd == "vmove") then
+        stepOracle d s cmd args
       else
       match cmd, args with
-      | "static", _ => (d, [])
+      | "static", _ => (d.set { s with staticId := nats.headD 0 }, [])
+      | "vnew", nm :: _ =>
+        match s.mkVPtr (nats.headD 0) with
+        | .ok v => ({ d with vars := (d.vars.filter (fun e => e.1 != nm)) ++ [(nm, v)] }, ["vptr ok"])
+        | .error (.fault w) => (d, [s!"fault {w}"])
+        | .error e => if d.handlerReturns then ({ d with dead := true }, ["!signal 6"]) else (d, [fmtCallErr e])
+      | "vfinal", nm :: _ =>
+        match s.mkFinal (nats.headD 0) with
+        | .ok v => ({ d with vars := (d.vars.filter (fun e => e.1 != nm)) ++ [(nm, v)] }, ["vptr ok"])
+        | .error (.fault w) => (d, [s!"fault {w}"])
+        | .error e => if d.handlerReturns then ({ d with dead := true }, ["!signal 6"]) else (d, [fmtCallErr e])
+      | "vcopy", dst :: src :: _ =>
+        match d.vars.find? (fun e => e.1 == src) with
+        | some e => ({ d with vars := (d.vars.filter (fun x => x.1 != dst)) ++ [(dst, e.2)] }, ["vptr ok"])
+        | none => (d, ["!harness bad virtual_ptr variable"])
+      | "vmove", dst :: src :: _ =>
+        match d.vars.find? (fun e => e.1 == src) with
+        | some e => ({ d with vars := (d.vars.filter (fun x => x.1 != dst)) ++ [(dst, e.2)] }, ["vptr ok"])
+        | none => (d, ["!harness bad virtual_ptr variable"])
       | "budget", _ => (d.set { s with budget := nats.headD 100000 }, [])
       | "handler", a :: _ => ({ d with handlerReturns := a == "return" }, [])
       | "class", _ =>
@@ -242,14 +286,34 @@ def step (d : DState) (tok : List String) : DState × List String :=
           else (d, [s!"update raised hash_search attempts={a} buckets={b}"])
         | .raised (.fault w) => (d, [s!"update fault {w}"])
       | "dump", _ => (d, dump s)
+      | "lookup", _ =>
+        match s.inst with
+        | none => (d, ["skipped: no completed update"])
+        | some inst =>
+          match (lookupVptr s.cfg s.pub (nats.headD 0)).bind (slotVptr inst) with
+          | .ok v => (d, [s!"vptr {v}"])
+          | .error (.fault w) => (d, [s!"fault {w}"])
+          | .error e => if d.handlerReturns then ({ d with dead := true }, ["!signal 6"]) else (d, [fmtCallErr e])
       | c, _ =>
-        if c == "call" || c == "callnext" || c == "callfinal" then
-          match nats with
-          | key :: ids =>
+        if c == "call" || c == "callnext" || c == "callfinal" || c == "vcall" then
+          if s.inst.isNone then (d, ["skipped: no completed update"]) else
+          -- virtual arguments: an id, or $name for an existing virtual_ptr
+          let vtoks := args.drop 1
+          let vals : List (Nat × Option VPtr) := vtoks.map (fun t =>
+            if t.startsWith "$" then
+              match d.vars.find? (fun e => e.1 == (t.drop 1).toString) with
+              | some e => (e.2.obj, some e.2)
+              | none => (0, none)
+            else (t.toNat?.getD 0, none))
+          match (args.head?.bind String.toNat?), vals.map (·.1) with
+          | some key, ids =>
             match s.methods.find? (fun m => m.key == key) with
             | none => (d, ["call bad-method"])
             | some m =>
-              let out := s.call key (zipArgs m.shape ids)
+              -- positions (in the full parameter list) of the virtual parameters
+              let vpos := (List.zipIdx m.shape).filterMap (fun (k, i) => if k.isVirtual then some i else none)
+              let pre : List (Nat × VPtr) := (vpos.zip vals).filterMap (fun (i, v) => v.2.map (fun p => (i, p)))
+              let out := s.callWith key (zipArgs m.shape ids) (if c == "callfinal" then .final else .ref) pre
               let errLine := fun (e : CallErr) =>
                 match e with
                 | .fault w => (d, [s!"fault {w}"])
@@ -275,7 +339,7 @@ def step (d : DState) (tok : List String) : DState × List String :=
                 match out with
                 | .ran did => (d, [s!"ran {did}"])
                 | .raised e => errLine e
-          | _ => (d, ["!harness bad call"])
+          | _, _ => (d, ["!harness bad call"])
         else (d, ["!harness unknown op " ++ c])
 
 partial def loop (h : IO.FS.Stream) (out : IO.FS.Stream) (d : DState) : IO Unit := do
